@@ -525,12 +525,12 @@ v("c18-twin-redundant-clean-copy-removed", "C18", PB,
 # ---------------------------------------------------------------- C27
 v("c27-pandas-no-partition-groupby", "C27", PB,
   "                opframe = subframe.groupby(op.partition_by, observed=True, dropna=False)", "                opframe = subframe.groupby([standin_name], observed=True, dropna=False)")
-v("c27-pandas-window-ascending-ignores-reverse", "C27", PB, "            ascending = [c not in set(op.reverse) for c in col_list]", "            ascending = [True for c in col_list]")
-v("c27-pandas-window-ascending-flipped", "C27", PB, "            ascending = [c not in set(op.reverse) for c in col_list]", "            ascending = [c in set(op.reverse) for c in col_list]")
+v("c27-pandas-window-ascending-ignores-reverse", "C27", PB, "            ascending = [c not in set(op.reverse) for c in order_cols]", "            ascending = [True for c in order_cols]")
+v("c27-pandas-window-ascending-flipped", "C27", PB, "            ascending = [c not in set(op.reverse) for c in order_cols]", "            ascending = [c in set(op.reverse) for c in order_cols]")
 v("c27-pandas-no-restore-sort", "C27", PB, "            subframe = subframe.sort_values(by=[\"_data_algebra_orig_index\"])\n", "")
 v("c27-pandas-sort-no-clean", "C27", PB,
-  "                subframe = self.clean_copy(\n                    subframe.sort_values(by=col_list, ascending=ascending)\n                )",
-  "                subframe = subframe.sort_values(by=col_list, ascending=ascending)", expect="silent")
+  "                subframe = self.clean_copy(\n                    subframe.sort_values(\n                        by=order_cols, ascending=ascending, kind=\"stable\"\n                    )\n                )",
+  "                subframe = subframe.sort_values(by=order_cols, ascending=ascending, kind=\"stable\")", expect="silent")
 v("c27-sql-no-desc", "C27", SM, "                    self.quote_identifier(ci) + (\" DESC\" if ci in revs else \"\")", "                    self.quote_identifier(ci)")
 v("c27-sql-no-partition-clause", "C27", SM,
   "                window_term = window_term + \"PARTITION BY \" + \", \".join(pt) + \" \"\n", "                window_term = window_term + \" \"\n")
@@ -892,3 +892,10 @@ v("d52-twin-repr-builtin", "C11", ER,
   "    return (type(a) == type(b)) and (a.__repr__() == b.__repr__())", "    return (type(a) == type(b)) and (repr(a) == repr(b))", expect="silent")
 v("d53-limit-stored-as-given", "C11", VR,
   "        if limit is not None:\n            if int(limit) != limit:\n                raise ValueError(\"limit must be an integer\")\n            limit = int(limit)\n", "")
+
+v("d54-window-sort-by-all-columns", "C10", PB,
+  "                        by=order_cols, ascending=ascending, kind=\"stable\"", "                        by=col_list, ascending=[c not in set(op.reverse) for c in col_list], kind=\"stable\"")
+v("d54-twin-sorted-kind-mergesort", "C10", PB,
+  "                        by=order_cols, ascending=ascending, kind=\"stable\"", "                        by=order_cols, ascending=ascending, kind=\"mergesort\"", expect="silent")
+v("d54-window-sort-by-all-columns-c27", "C27", PB,
+  "                        by=order_cols, ascending=ascending, kind=\"stable\"", "                        by=col_list, ascending=[c not in set(op.reverse) for c in col_list], kind=\"stable\"")
